@@ -3,6 +3,7 @@ package main
 import (
 	"fmt"
 	"go/types"
+	"math/big"
 	"strings"
 
 	"golang.org/x/tools/go/ssa"
@@ -192,6 +193,10 @@ func (fr *Frame) libModel(fn *ssa.Function, full string, args []Val, st *State, 
 			nonNil(1)
 			nonNil(2)
 			c.declareFun("big.exp", []Sort{SInt, SInt, SInt}, SInt)
+			// ground instances that occur in the code base (no modulus): 10^18 (pip per bip), 10^n for small n
+			for _, k := range []int64{0, 1, 2, 3, 6, 9, 18} {
+				c.assume(mk(SBool, fmt.Sprintf("(= (big.exp 10 %d 0) %s)", k, new(big.Int).Exp(big.NewInt(10), big.NewInt(k), nil).String())))
+			}
 			mval := tIte(tEq(T(3), intLit(0)), intLit(0), tSelect(bigval(), T(3)))
 			setBig(T(0), app(SInt, "big.exp", bv(1), bv(2), mval))
 			return done(args[0])
